@@ -118,7 +118,7 @@ def rerun_family():
              ('units', 'raw'), ('units', 'rgb'), ('units', 'logical'),
              ('act', 'set', (('zone', S('s'), N(1), N(2)),)), ('act', 'set', (('matrix', S('m'), (N(0), None), None),)),
              ('setdefault',), ('assign', 'x', ('reg', 'hue')), ('print', ('reg', 'hue')), ('wait',),
-             ('printf', '{} {}', (N(1), ('bin', '/', N(1), N(0)))), ('printf', '{}', (N(5),)),
+             ('printf', '{} {}', (N(1), ('bin', '/', N(1), N(0)))), ('printf', '{}', (N(5),)), ('printf', '{} {}', (N(1), N(2))),
              ('setreg', 'hue', ('bin', '/', N(1), N(0)))]
     for n in (1, 2, 3, 4):
         for seq in itertools.product(alpha, repeat=n):
